@@ -10,6 +10,18 @@ Theorem C05_reduce_correct :
 Proof. exact reduce_correct. Qed.
 Print Assumptions C05_reduce_correct.
 
+Theorem C05_first_occurrences :
+  forall (R : list (list Z)) (ms : list Z) (k : Z) (prev : option Z) (pre : list Z),
+       (forall (r : list Z) (m : Z), In (r, m) (combine R ms) -> r <> [] -> In m r) ->
+       match prev with
+       | Some p => p < k
+       | None => True
+       end ->
+       map (fun i : Z => nth (Z.to_nat i) (pre ++ nz_cols R ms) 0)
+         (fnz_from (zlen pre) (change_mask prev (nz_rows k R ms))) = arg_spec R ms.
+Proof. exact first_occurrences. Qed.
+Print Assumptions C05_first_occurrences.
+
 Theorem C05_argmax_correct :
   forall (R : list (list Z)) (ms : list Z),
        length ms = length R ->
